@@ -174,6 +174,19 @@ def fit():
     fit_perform(path, path_results=pout)
 
 
+def _get_youngs_modulus(idnt):
+    """Return the fitted Young's modulus "E" or nan if not available
+
+    There is no fitted "E" if the fit was not successful (e.g. no data
+    points in the fitting interval) or if the model has no parameter "E".
+    """
+    params = idnt.fit_properties.get("params_fitted", {})
+    if "E" in params:
+        return params["E"].value
+    else:
+        return float("nan")
+
+
 def fit_perform(path, path_results, profile_path=PROFILE_PATH):
     path_results = pathlib.Path(path_results)
     ptsv = path_results / "statistics.tsv"
@@ -182,7 +195,7 @@ def fit_perform(path, path_results, profile_path=PROFILE_PATH):
     pf = Profile(path=profile_path, create=False)
     dlist = [["path", lambda x: x.path],
              ["enum", lambda x: x.enum],
-             ["E", lambda x: x.fit_properties["params_fitted"]["E"].value],
+             ["E", _get_youngs_modulus],
              ["rating", lambda x: round(x.rate_quality(
                  training_set=pf["rating training set"],
                  regressor=pf["rating regressor"]),
